@@ -125,8 +125,14 @@ def check_small(case, ctx):
     check_table(case, ctx, scheme=DECODER)
 
 
+def check_table_batched(case, ctx):
+    # generation dominates the cost: the drawn scheme, then the decoder scheme on the same dataset and candidates
+    check_table(case, ctx)
+    check_table(case, ctx, scheme=DECODER)
+
+
 def subchecks():
     return [
-        HypSub("table_random", table_cases, check_table, quick=5000, thorough=80000),
+        HypSub("table_random", table_cases, check_table_batched, quick=5000, thorough=80000),
         EnumSub("small_scope", small_datasets, check_small),
     ]
